@@ -14,12 +14,13 @@ RULE = (
     "functions / classes / argparse functions / SQLAlchemy models x3 / JSON-schemas emitted from generated interfaces "
     "-> the matching parser; (c) hand-shaped defs from the module generator (positional, defaulted, annotated, "
     "*args, **kwargs, keyword-only, decorators, docstring documenting a subset) -> function parser, with the signature "
-    "as reference; (d) arbitrary token soups -> docstring parser, shape checked whenever it returns. Non-trivial = "
+    "as reference; (d) arbitrary token soups -> docstring parser, shape checked whenever it returns; (e) LIVE function / "
+    "class objects (the generated source is written to a file and imported) -> function / class parser. Non-trivial = "
     ">=2 params or a section besides params. Distinct = SHA-1 of the input."
 )
 TIERS = {"quick": {"shards": 8, "n": 2500, "budget_s": 200}, "thorough": {"shards": 16, "n": 20000, "budget_s": 2700}}
 FLOOR = {"quick": 1000, "thorough": 30000}
-REQUIRED_LABELS = {"quick": ["class-merge", "explicit-function_type", "src:docstring", "src:function-handshaped", "src:emitted", "src:text", "star-args"], "thorough": []}
+REQUIRED_LABELS = {"quick": ["class-merge", "explicit-function_type", "src:docstring", "src:function-handshaped", "src:emitted", "src:text", "star-args", "live:function", "live:class"], "thorough": []}
 ASSUMPTIONS = ["on ill-formed text (not derivable from the section grammar) the clauses 'name non-empty' and 'typ parses' are relaxed (P30); all other shape clauses stay"]
 TOK = [":param ", ":type ", ":return: ", ":rtype: ", ":cvar ", "Args:\n", "Returns:\n", "Raises:\n", "Kwargs:\n", "Parameters\n----------\n", "Returns\n-------\n", "alpha", "beta_x", "*args", "**kwargs", "(int)", " (str, optional)", "```int```", "```", ":", "\n", "  ", "    ", "Defaults to 5", "Defaults to ", ".", " or ", "int", "Optional[str]", " : ", "the value"]
 
@@ -88,7 +89,18 @@ def shape(ir, allow_empty_name=False, allow_bad_typ=False, allow_none_key=False)
 # ---------------------------------------------------------------------------------------------- case kinds
 @st.composite
 def case_strategy(draw):
-    kind = draw(st.sampled_from(["docstring", "docstring", "function", "function", "emitted", "emitted", "text", "class-merge"]))
+    kind = draw(st.sampled_from(["docstring", "docstring", "function", "function", "emitted", "emitted", "text", "class-merge", "live"]))
+    if kind == "live":
+        # a live (imported) function or class object: the `inspect`-based entry of the function / class parsers
+        if draw(st.booleans()):
+            feat = []
+            lines = draw(gen_prog.funcdef(feat=feat))
+            return {"kind": "live", "obj": "function", "src": "\n".join(lines) + "\n", "feat": sorted(set(feat))}
+        fmt = draw(st.sampled_from(["function", "class"]))
+        case = draw(gen_ir.interface("executable", min_params=1, max_params=5, suffix=True))
+        with core.quiet():
+            src, _ = hops.emit_src(fmt, gen_ir.to_ir(case), docstring_format=draw(st.sampled_from(["rest", "google", "numpydoc"])), **({"function_name": "foo", "function_type": "static"} if fmt == "function" else {"class_name": "Foo"}))
+        return {"kind": "live", "obj": fmt, "src": src + "\n", "feat": ["emitted"], "names": [n for n, _p in case["params"]]}
     if kind == "docstring":
         d = draw(gen_doc.docstr(allow_star=True, multiline=True))
         return {"kind": "docstring", "text": d["text"], "style": d["style"], "indent": d["indent"], "footer": d["footer"], "star": any(p["name"].startswith("*") for p in d["params"]), "n": len(d["params"]), "rtyp": d["rtyp"]}
@@ -112,6 +124,65 @@ def strategy(ctx):
     return case_strategy()
 
 
+LIVE_PREAMBLE = """from typing import *
+from typing import Annotated
+import os, functools
+
+
+def deco(*a, **k):
+    return a[0] if len(a) == 1 and callable(a[0]) and not k else (lambda f: f)
+
+
+deco2 = deco
+Field = dict
+
+
+class Base(object):
+    pass
+
+
+class Mixin(object):
+    pass
+
+
+class Forward(object):
+    pass
+
+
+"""
+_live_counter = [0]
+
+
+def import_live(src):
+    """write the source into a real file, import it under a fresh module name, return (module, cleanup)"""
+    import importlib.util
+    import os
+    import shutil
+    import sys
+    import tempfile
+
+    d = tempfile.mkdtemp(prefix="c14_", dir="/dev/shm" if os.path.isdir("/dev/shm") else None)
+    _live_counter[0] += 1
+    name = "c14_live_mod_%d_%d" % (os.getpid(), _live_counter[0])
+    p = os.path.join(d, name + ".py")
+    with open(p, "w") as f:
+        f.write(LIVE_PREAMBLE + src)
+    spec = importlib.util.spec_from_file_location(name, p)
+    mod = importlib.util.module_from_spec(spec)
+    sys.modules[name] = mod
+
+    def cleanup():
+        sys.modules.pop(name, None)
+        shutil.rmtree(d, ignore_errors=True)
+
+    try:
+        spec.loader.exec_module(mod)
+    except BaseException:
+        cleanup()
+        raise
+    return mod, cleanup
+
+
 def _unique_methods(cnode):
     """methods whose name occurs once in the class body (two generated methods of the same name are the generator's
     duplicate: `merge_inner_function` can only name one of them)"""
@@ -133,9 +204,24 @@ def oracle(case):
     cdd = hops.load()["cdd"]
     kind = case["kind"]
     r.label("src:" + ("function-handshaped" if kind in ("function", "class-merge") else kind))
+    cleanup = None
+    if kind == "live":
+        tree = ast.parse(case["src"])
+        top = tree.body[0]
+        try:
+            mod, cleanup = import_live(case["src"])
+        except Exception as e:  # the generated module itself does not import (not a parser matter)
+            r.label("n/a:module-does-not-import")
+            r.exc.append("live-import %s" % type(e).__name__)
+            return r
     try:
         with core.quiet():
-            if kind == "docstring":
+            if kind == "live":
+                obj = getattr(mod, top.name)
+                if isinstance(obj, (staticmethod, classmethod)):
+                    obj = obj.__func__
+                ir = (cdd.function.parse.function if case["obj"] == "function" else cdd.class_.parse.class_)(obj)
+            elif kind == "docstring":
                 ir = cdd.docstring.parse.docstring(case["text"])
                 well_formed = True
             elif kind == "text":
@@ -170,6 +256,9 @@ def oracle(case):
         elif kind == "emitted":
             r.fail("parser-raises-on-emitted", "%s/%s: %s" % (case["fmt"], case["style"], core.exc_bucket(e)))
         return r
+    finally:
+        if cleanup:
+            cleanup()
     if kind == "text":
         errs = shape(ir, allow_empty_name=is_open("P30"), allow_bad_typ=is_open("P30"))
         if is_open("P30"):
@@ -183,6 +272,21 @@ def oracle(case):
             errs = [e for e in errs if not e.startswith("name-star")]
         if case["star"]:
             r.label("star-args")
+    elif kind == "live":
+        errs = shape(ir)
+        r.label("live:" + case["obj"])
+        got = list(ir["params"])
+        if case["obj"] == "class":
+            want = case["names"]
+        else:
+            want, loose = sig_names(top)
+            if loose:
+                r.label("star-args")
+        for n in want:
+            if got.count(n) != 1:
+                errs.append("signature-param-%s:%s" % ("missing" if got.count(n) == 0 else "duplicated", n))
+        for f in case["feat"]:
+            r.label("fn:" + f)
     elif kind in ("function", "class-merge"):
         errs = shape(ir)
         if kind == "function":
